@@ -79,13 +79,24 @@ Proof.
 Qed.
 
 (* ---------- add_mixins on a private node ---------- *)
+Lemma add_mix_nil : forall x, add_mix [] x = x.
+Proof. intros []. unfold add_mix. cbn. rewrite app_nil_r. reflexivity. Qed.
+
+Lemma g_mod_id : forall g n f, (forall x, f x = x) -> g_mod g n f = g.
+Proof. induction g; destruct n; cbn; intros; auto; f_equal; auto. Qed.
+
 Lemma cd_add_mixins_ok : forall g n own ms ms2 g' u, IsFn g n own ms -> cd_add_mixins g n ms2 = COk g' u ->
   g' = g_mod g n (add_mix (filter (fun m => negb (Nat.eqb m n)) ms2)).
 Proof.
   intros g n own ms ms2 g' u (x & E & Ho & Hm & (Pl & Pc & Pch & Plb)) H.
-  apply of_step_ok in H.
-  destruct (do_add_mixins_cases g n ms2) as [(x' & E' & V & Lk & W & Q)|(Nd & _ & _)].
-  - rewrite Q in H. injection H as <-. rewrite E in E'. injection E' as <-. unfold mixed. rewrite Plb. reflexivity.
+  apply of_step_ok in H. fold (nself n ms2).
+  destruct (do_add_mixins_cases g n ms2) as [(x' & E' & Lk & F & Q)|[(x' & g'' & E' & V & Lk & F & W & U & Q)|(Nd & _ & _)]].
+  - rewrite Q in H. injection H as <-. rewrite F. symmetry. apply g_mod_id. apply add_mix_nil.
+  - rewrite Q in H. injection H as <-. rewrite E in E'. injection E' as <-.
+    assert (mixed g n x ms2 = g_mod g n (add_mix (nself n ms2))) as M by (unfold mixed, nself; rewrite Plb; reflexivity).
+    rewrite M in U.
+    assert (length g = S (pred (length g))) as Lg by (apply g_get_lt in E; lia).
+    rewrite Lg in U. erewrite upd_private in U; [injection U as <-; reflexivity | apply g_get_mod_same; exact E | cbn; auto | cbn; auto].
   - rewrite H in Nd. cbn in Nd. congruence.
 Qed.
 
